@@ -8,6 +8,7 @@ Helper lemmas: `Proofs/C04Prim|Types|Meta|Frames|Resp|Wire|Rows.lean`.
 -/
 import Proofs.C04Wire
 import Proofs.C04Rows
+import Proofs.C04Maps
 namespace C04
 open FrameRead RespSpec Rows
 
@@ -103,6 +104,83 @@ theorem C04_cells_scan (m : Meta) (rs : List (List Cell)) (hcols : ∀ n g, m.co
       (by simp [it, iterOf, h3])
     simpa [typedRows, it, iterOf] using this
   · exact scan_end _ _ rfl rfl
+
+/-- FULL PROPERTY for the Scanner: as C04_cells_scan for every page. Not true of the unchanged code
+    (`C04_cex_scanner_tuple_not_last`); the theorem needs `narrow`: every column but the last
+    occupies exactly one destination (no tuple column of width ≠ 1 before another column).
+
+    `rs.length` rounds of `Next()` = true and `Scan(dests)` = nil deliver exactly the calls each row
+    stands for; the buffer is consumed exactly; the next `Next()` returns false with no error. -/
+theorem C04_cells_scanner_partial (m : Meta) (rs : List (List Cell)) (hcols : ∀ n g, m.cols ≠ .omitted n g)
+    (hw : wfRows (colTypes m.cols) rs = true) (hnar : narrow (colTypes m.cols) = true) :
+    let it := iterOf (viewMeta m) rs.length (eRows rs)
+    let W := totalWidth (colTypes m.cols)
+    ∃ s, scannerRows (List.replicate W true) rs.length it.scanner
+          = some ((typedRows (colTypes m.cols) rs).map (rowCalls 0), s) ∧
+      s.it = { it with pos := rs.length, buf := [] } ∧ s.next = .ok (s, false) := by
+  intro it W
+  obtain ⟨h1, h2, h3⟩ := typedRows_props (colTypes m.cols) rs hw
+  have hcm : colsMatch (viewCols m.cols) (colTypes m.cols) := colsMatch_view m.cols
+  have hlen : (viewCols m.cols).length = (colTypes m.cols).length := by
+    have := congrArg List.length hcm
+    simpa using this
+  obtain ⟨s, hs1, hs2⟩ := scannerRows_ok (typedRows (colTypes m.cols) rs) (colTypes m.cols) it.scanner W [] rfl
+    (by simp [it, iterOf, Iter.scanner, typedRows]) (by simp [it, iterOf, Iter.scanner, viewMeta, hlen])
+    (by simpa [it, iterOf, Iter.scanner, viewMeta] using hcm) h1 h2 hnar rfl
+    (by simpa [it, iterOf, Iter.scanner, viewMeta] using actualCount_eq m.cols hcols)
+    (by simp [it, iterOf, Iter.scanner, h3])
+  refine ⟨s, by simpa [typedRows] using hs1, by simpa [it, iterOf, Iter.scanner] using hs2, ?_⟩
+  apply scanner_end
+  · rw [hs2]; rfl
+  · rw [hs2]
+
+/-- MapScan with a recorder supplied under every RowData column name (`name` for a plain column,
+    `name[i]` for element i of a tuple column): when every column type has a Go type (goType
+    succeeds: `rowDataColumns = ok names`) and the names are distinct, the map entry of each name is
+    the cell (tuple field) of the destination carrying that name. One row: -/
+theorem C04_cells_mapscan (m : Meta) (row : List Cell) (more : List (List Cell)) (names : List FrameRead.Bytes)
+    (hcols : ∀ n g, m.cols ≠ .omitted n g) (hw : wfRows (colTypes m.cols) (row :: more) = true)
+    (hnames : rowDataColumns (viewCols m.cols) = .ok names) (hd : names.Nodup) :
+    let it := iterOf (viewMeta m) ((row :: more).length) (eRows (row :: more))
+    mapScan it = .row { it with pos := 1, buf := eRows more }
+      (names.zip ((rowCalls 0 ((colTypes m.cols).zip row)).map (·.data))) := by
+  intro it
+  have h : (row.length = (colTypes m.cols).length ∧ wfRow ((colTypes m.cols).zip row) = true) ∧ True := by
+    simp only [wfRows, List.all_cons, Bool.and_eq_true, beq_iff_eq] at hw
+    exact ⟨hw.1, trivial⟩
+  have hfst : ((colTypes m.cols).zip row).map (·.1) = colTypes m.cols :=
+    List.map_fst_zip (by rw [h.1.1]; exact Nat.le_refl _)
+  have hsnd : ((colTypes m.cols).zip row).map (·.2) = row :=
+    List.map_snd_zip (by rw [h.1.1]; exact Nat.le_refl _)
+  have := mapScan_row it ((colTypes m.cols).zip row) (eRows more) names rfl
+    (by simp [it, iterOf]) (by rw [hfst]; simpa [it, iterOf, viewMeta] using colsMatch_view m.cols) h.1.2
+    (by simpa [it, iterOf, viewMeta] using hnames) hd
+    (by rw [hfst]; simpa [it, iterOf, viewMeta] using actualCount_eq m.cols hcols)
+    (by rw [hsnd]; simp [it, iterOf, eRows, eRow])
+  simpa [it, iterOf] using this
+
+/-- SliceMap (driven with blob / ascii / text / varchar leaf types, whose typed value is the cell's
+    bytes, null reading as empty): one map per row, as for MapScan; no error; buffer consumed. -/
+theorem C04_cells_slicemap (m : Meta) (rs : List (List Cell)) (names : List FrameRead.Bytes)
+    (hcols : ∀ n g, m.cols ≠ .omitted n g) (hw : wfRows (colTypes m.cols) rs = true)
+    (hnames : rowDataColumns (viewCols m.cols) = .ok names) (hd : names.Nodup) :
+    let it := iterOf (viewMeta m) rs.length (eRows rs)
+    sliceMap it = .rows ((typedRows (colTypes m.cols) rs).map
+        (fun row => names.zip ((rowCalls 0 row).map (fun c => c.data.getD []))))
+      { it with pos := rs.length, buf := [] } := by
+  intro it
+  obtain ⟨h1, h2, h3⟩ := typedRows_props (colTypes m.cols) rs hw
+  have := sliceMapRows_ok (typedRows (colTypes m.cols) rs) (colTypes m.cols) it names [] [] rfl
+    (by simp [it, iterOf, typedRows]) (by simpa [it, iterOf, viewMeta] using colsMatch_view m.cols) h1 h2
+    (by simpa [it, iterOf, viewMeta] using hnames) hd
+    (by simpa [it, iterOf, viewMeta] using actualCount_eq m.cols hcols)
+    (by simp [it, iterOf, h3])
+  unfold sliceMap
+  have hfuel : ((it.numRows - it.pos).toNat + 1) = (typedRows (colTypes m.cols) rs).length + 1 := by
+    simp [it, iterOf, typedRows]
+  simp only [show it.failed = false from rfl, Bool.false_eq_true, if_false, hfuel]
+  rw [this]
+  simp [it, iterOf, typedRows]
 
 /-! ## 4. skipped metadata -/
 
